@@ -81,6 +81,9 @@ package dbft
 //@ ghost gMaxOwnView Int
 //@ ghost gTipHeight Int
 //@ ghost gTipHash Ref
+//@ ghost gValidators RefSeq
+//@ ghost gTimePerBlock Int
+//@ ghost gMaxTimePerBlock Int
 
 // ---- predicates ----
 
@@ -211,6 +214,7 @@ package dbft
 //@ extern Config.NewRecoveryMessage
 //@   ensures result != nil
 //@ extern Config.GetValidators
+//@   ghost gValidators = result
 //@   ensures len(result) >= 1 && len(result) <= 65535
 // A4: the key pair callback returns -1 or an index into the list it was given, and the same one for the same list.
 //@ extern Config.GetKeyPair
@@ -223,8 +227,10 @@ package dbft
 //@   ensures result < 4294967295
 // A8: block times are positive, bounded (minimum <= 68 s, maximum <= 18 min) and the maximum is not below the minimum.
 //@ extern Config.TimePerBlock
+//@   ghost gTimePerBlock = result
 //@   ensures result > 0 && result <= 68719476736
 //@ extern Config.MaxTimePerBlock
+//@   ghost gMaxTimePerBlock = result
 //@   ensures result >= self.timePerBlock && result <= 1099511627776
 //@ extern Config.GetVerified
 //@   ghost gPool = result
@@ -255,6 +261,7 @@ package dbft
 //@ pred timerOK() = self.Config.WatchOnly() || self.MyIndex < 0 || self.blockProcessed
 //@      || (gTimerH == self.BlockIndex && gTimerV == self.ViewNumber && gTimerD >= 0)
 //@ pred timerKept() = implies(aview() && (old(timerOK()) || self.ViewNumber != old(self.ViewNumber)), timerOK()) && gTimerArms >= old(gTimerArms)
+//@ pred timeoutBase(view) = ite(self.MyIndex == self.PrimaryIndex && !self.recovering, ite(view == 0, self.timePerBlock, 0), shl(self.timePerBlock, self.ViewNumber + 1))
 //@ pred sameHeight() = unchanged(self.Validators) && self.BlockIndex == old(self.BlockIndex) && self.MyIndex == old(self.MyIndex)
 
 // ---- quorum evidence (C02, C04, C07) ----
@@ -419,6 +426,8 @@ package dbft
 //@   ensures self.ViewNumber == view
 //@   ensures [C05,C04,C12,C02,C01] @cleanProposal cleanProposal()
 //@   ensures [C05] @cleanHeight implies(view == 0, !self.blockProcessed && !self.preBlockProcessed && self.lastBlockTimestamp == ts)
+//@   ensures [C05] @freshFromCallbacks implies(view == 0, sametable(self.Validators, gValidators) && self.timePerBlock == gTimePerBlock
+//@        && implies(self.Config.MaxTimePerBlock != nil, self.maxTimePerBlock == gMaxTimePerBlock) && tip() && self.MyIndex == first(self.Config.GetKeyPair(self.Validators)))
 //@   ensures [C16,C05] @unsubscribed !self.txSubscriptionOn
 //@   ensures [C15,C05] @base self.lastBlockTimestamp == ts
 //@   ensures implies(view > 0, sameHeight() && unchanged(self.CommitPayloads, self.PreCommitPayloads, self.preBlockProcessed, self.blockProcessed))
@@ -428,7 +437,7 @@ package dbft
 //@   ghost gPreCommit = ite(view == 0, nil, gPreCommit)
 //@   ghost gMaxOwnView = ite(view == 0, 0, gMaxOwnView)
 //@   requires [C03] @lock implies(view > 0, !locked() && said())
-//@   modifies Context.*, heap HeightView.*, gTipHeight, gTipHash, gPrep, gCommit, gPreCommit, gMaxOwnView
+//@   modifies Context.*, heap HeightView.*, gTipHeight, gTipHash, gPrep, gCommit, gPreCommit, gMaxOwnView, gValidators, gTimePerBlock, gMaxTimePerBlock
 //@   loop 1: invariant len(c.LastChangeViewPayloads) == NN() && len(c.ChangeViewPayloads) == NN() && unchanged(c.ChangeViewPayloads, c.Validators)
 
 // C14 (arithmetic part for proposals): shifting the previous timestamp l and the clock c = a*incr + r by k = q*incr shifts the proposal timestamp max(l+incr, trunc(c)) by k.
@@ -438,7 +447,7 @@ package dbft
 //@ pred truncClock() = (gClock / self.TimestampIncrement) * self.TimestampIncrement
 //@ func (*Context).getTimestamp
 //@   requires wf()
-//@   ensures [C15] @trunc result == truncClock()
+//@   ensures [C15,C14] @trunc result == truncClock()
 //@   modifies gClock
 //@ func (*Context).Fill
 //@   requires wf()
@@ -449,7 +458,7 @@ package dbft
 //@   ensures implies(!result, self.Config.MaxTimePerBlock != nil)
 //@   ensures [C15] @unchangedIfRefused implies(!result, unchanged(c.Timestamp, c.Nonce, c.TransactionHashes, c.Transactions) && c.Config.MaxTimePerBlock != nil && !force && len(gPool) == 0)
 //@   ensures [C15] @increasing implies(result, c.Timestamp > c.lastBlockTimestamp)
-//@   ensures [C15] @clock implies(result, c.Timestamp == max(c.lastBlockTimestamp + c.Config.TimestampIncrement, truncClock()))
+//@   ensures [C15,C14] @clock implies(result, c.Timestamp == max(c.lastBlockTimestamp + c.Config.TimestampIncrement, truncClock()))
 //@   ensures [C15] @pool implies(result, len(c.TransactionHashes) == len(gPool) && forall(j, 0, len(gPool), c.TransactionHashes[j] == gPool[j].Hash() && has(c.Transactions, gPool[j].Hash())))
 //@   modifies Context.Nonce, Context.Timestamp, Context.TransactionHashes, Context.Transactions, gClock, gPool
 //@ func (*Context).makePrepareRequest
@@ -677,6 +686,10 @@ package dbft
 //@   ensures [C15] @sameBase self.lastBlockTimestamp == ts
 //@   ensures @heap heapMono()
 //@   ensures [C10] @timer implies(aview(), timerOK())
+// C14 / C10: the requested duration depends on the clock only through the difference to the instant of the last block round.
+//@   ensures [C14,C10] @duration implies(notWatchOnly() && aview() && self.lastBlockTime != tzero() && 0 <= self.rttEstimates.avg && self.rttEstimates.avg <= 2305843009213693952 && self.lastBlockIndex < 4294967295,
+//@        gTimerD == ite(self.lastBlockIndex + 1 == self.BlockIndex,
+//@              max(0, timeoutBase(view) - (gClock - self.lastBlockTime) - self.rttEstimates.avg / 2), timeoutBase(view)))
 //@   ensures @arms gTimerArms >= old(gTimerArms) && gBroadcasts >= old(gBroadcasts)
 //@   ensures [C05] @cachePurged implies(view == 0, cachePurged())
 //@   ensures [C05] @cacheKeptPurged implies(old(cachePurged()), cachePurged())
